@@ -300,15 +300,28 @@ Example C04_enum_example :
   map (fun o => fst (fst (fst o))) (re_options (norm_enum e)) = [[85;78;83;80;69;67;73;70;73;69;68]; [82]; [71]].
 Proof. cbv zeta. repeat split; vm_compute; reflexivity. Qed.
 
-(* ... except when the explicit first option is some other name ending in
-   UNSPECIFIED: the reader derives the prefix from it *)
-Theorem C04_enum_unspecified_refuted :
+(* a first option that merely ENDS in UNSPECIFIED (X_UNSPECIFIED) is an ordinary option
+   since /repo a65e1f2 (isExplicitZero): value 0 stays C_UNSPECIFIED, X_UNSPECIFIED = 1,
+   R = 2, and the enum reads back as declared (before, the writer took it for value 0 and
+   the reader derived the prefix "C_X_" from it: a known finding, now fixed) *)
+Example C04_enum_other_unspecified_reads_back :
+  let e := ED [] [67;95] [([88;95;85;78;83;80;69;67;73;70;73;69;68], [], []); ([82], [], [])] [] in
+  enum_rt e = true /\ read_enum (write_enum e) = Ok (norm_enum e) /\
+  map (fun o => snd (fst (fst o))) (re_options (norm_enum e)) = [0%Z; 1%Z; 2%Z].
+Proof. cbv zeta. repeat split; vm_compute; reflexivity. Qed.
+
+(* the one class left outside [unspec_ok]: the prefix is itself a non-empty prefix of
+   "UNSPECIFIED" (`enum Un { prefix = "UN"  option UNSPECIFIED  option R }`): the compiler
+   does not take UNSPECIFIED for the zero value (enumValueName leaves it alone, it is not
+   "UN" ++ "UNSPECIFIED"), emits UNUNSPECIFIED = 0, UNSPECIFIED = 1, UNR = 2, and the
+   reader trims "UN" from UNSPECIFIED (reproduced on the real compiler; degenerate) *)
+Theorem C04_enum_prefix_of_unspecified_refuted :
   exists e, read_enum (write_enum e) <> Ok (norm_enum e).
 Proof.
-  exists (ED [] [67;95] [([88;95;85;78;83;80;69;67;73;70;73;69;68], [], []); ([82], [], [])] []).
+  exists (ED [] [85;78] [([85;78;83;80;69;67;73;70;73;69;68], [], []); ([82], [], [])] []).
   vm_compute. discriminate.
 Qed.
-Print Assumptions C04_enum_unspecified_refuted.
+Print Assumptions C04_enum_prefix_of_unspecified_refuted.
 
 (* ... or when a description has a line the reader's commentDescription drops ("# ...") *)
 Theorem C04_enum_description_refuted :
